@@ -217,11 +217,15 @@ def r3(rep, fx):
     rep.floor('C01.R3 Opcode::Break constructions', n, 1)
     # the break word accepts exactly the loop openers the closers handle
     bf = fx.need('state::core_word_break')
-    clo = [c for c in fx.callgraph().get(bf.name, ()) if c.startswith(bf.name + '::{closure')]
+    # the predicate handed to the iterator: a closure of the word or a local function taking the Flow
+    # by reference (whichever spelling), whose switch scrutinee is its own argument
+    clo = [c for c in fx.callgraph().get(bf.name, ()) if c in fx.fns and
+           (c.startswith(bf.name + '::{closure') or not fx.fns[c].name.startswith('state::State::'))]
     accepted = set()
     for c in clo:
         for bb, arms, sc in flow_switches(fx.fns[c]):
-            accepted |= set(arms)
+            if any(isinstance(x, tuple) and x[0] == 'arg' for x in expr_walk(sc)):
+                accepted |= set(arms)
     ok = accepted == {'Begin', 'While', 'Do'}
     rep.add('C01.R3', 'C01.R3:break-accepts-loop-openers', ok, 'break is accepted inside Begin / While / Do' if ok else
             'break accepts %s' % sorted(accepted), bf.name, bf.j['span'], nontrivial=False)
